@@ -479,26 +479,31 @@ Section Npz.
   Qed.
 
   (* -- loading an archive entry -- *)
+  Lemma archive_key_given : forall k, str_truthy k = true -> archive_key (Some k) = Some k.
+  Proof. intros k H. unfold archive_key, archive_entry. rewrite H. reflexivity. Qed.
+
+  Lemma archive_key_default : archive_key None = Some (arr_key 0).
+  Proof. reflexivity. Qed.
+
   Lemma load_npz : forall fs p c es k a kw nv,
     fs p = Some (FNpz c es) -> resolves kw p FaNpz -> kw_dtype kw = None ->
     lookup k es = Some a -> a_dt a = DF64 -> a_ndim a = 2%nat ->
-    (kw_key kw = Some k /\ str_truthy k = true) \/
-    (k = arr_key 0 /\ (kw_key kw = None \/ kw_key kw = Some EmptyString)) ->
+    (kw_key kw = Some k /\ str_truthy k = true) \/ (k = arr_key 0 /\ kw_key kw = None) ->
     init fs (Some p) nv kw = Ok (Obj (Some a) nv).
   Proof.
     intros fs p c es k a kw nv Hf Hr Hk Hl Hd Hn Hkey.
     assert (E : astype cast (Some DF64) a = Ok a).
     { destruct a as [d l|d r0 r1]; simpl in *; subst; now rewrite ?map_cast_same. }
-    unfold Model.init. rewrite Hk. unfold probe_dtypes. simpl.
+    assert (K : archive_key (kw_key kw) = Some k).
+    { destruct Hkey as [[-> Ht]|[-> ->]]; [now apply archive_key_given|apply archive_key_default]. }
+    unfold Model.init. rewrite Hk.
+    assert (P : exists t, probe_dtypes = DF64 :: t) by (eexists; reflexivity).
+    destruct P as [t ->]. simpl.
     assert (R : read_signal fs p (Some DF64) (kw_key kw) (kw_force_as kw) = Ok a).
     { unfold Model.read_signal, Spec.resolves in *.
       assert (R' : reader_of FaNpz = RNumpyArchive) by reflexivity.
-      destruct (kw_force_as kw) as [f|]; [subst f|rewrite Hr]; simpl;
-        unfold np_load; rewrite Hf; simpl;
-        (destruct Hkey as [[-> Ht]|[-> [->| ->]]];
-         [simpl; rewrite Ht; simpl; rewrite Hl; exact E
-         |change (lookup "arr_0"%string es = Some a) in Hl; simpl; rewrite Hl; exact E
-         |change (lookup "arr_0"%string es = Some a) in Hl; simpl; rewrite Hl; exact E]). }
+      destruct (kw_force_as kw) as [f|]; [subst f|rewrite Hr]; cbn [bind]; rewrite R';
+        unfold np_load; rewrite Hf; cbn [bind]; rewrite K, Hl; exact E. }
     rewrite R. simpl. rewrite Hn. reflexivity.
   Qed.
 
@@ -545,7 +550,7 @@ Section Npz.
     apply load_npz with (c := c) (es := dict_set (arr_key 0) (Arr2 d r0 r1) []) (k := arr_key 0);
       try assumption;
       first [ apply fs_set_same | apply lookup_dict_set_same
-            | right; split; [reflexivity|now left] | reflexivity ].
+            | right; split; [reflexivity|assumption] | reflexivity ].
   Qed.
 
   (* -- repeatability -- *)
@@ -956,41 +961,3 @@ Lemma validity_before_fix_rejects_negative_sums :
                   stats_valid ZC c r0 r1 = true /\ stats_valid_before_fix ZC c r0 r1 = false.
 Proof. exists [4; -7; 2]%Z, [10; 29; 0]%Z, 2%Z. split; [exact wit_good|]. repeat split. Qed.
 
-(* key "allow_pickle": save succeeds, nothing is stored, reload fails *)
-Lemma key_allow_pickle_lost :
-  exists fs', zsave fs_empty wit_obj "s.npz" (Some "allow_pickle"%string) false true = Ok fs' /\
-              fs' "s.npz"%string = Some (FNpz false []) /\
-              zinit fs' (Some "s.npz"%string) true (Kw None (Some "allow_pickle"%string) None) = Raise KeyError.
-Proof. eexists. repeat split. Qed.
-
-(* key "file": TypeError *)
-Lemma key_file_typeerror :
-  zsave fs_empty wit_obj "s.npz" (Some "file"%string) false true = Raise TypeError.
-Proof. reflexivity. Qed.
-
-(* key "": stored, but a load by that key looks for arr_0 *)
-Lemma key_empty_not_reloadable :
-  exists fs', zsave fs_empty wit_obj "s.npz" (Some ""%string) false true = Ok fs' /\
-              zinit fs' (Some "s.npz"%string) true (Kw None (Some ""%string) None) = Raise KeyError.
-Proof. eexists. split; reflexivity. Qed.
-
-(* raw file loaded with an explicit dtype: no reshape, the object is unusable *)
-Lemma raw_explicit_dtype_unusable :
-  exists fs' o', zsave fs_empty wit_obj "stats.bin" None false true = Ok fs' /\
-                 zinit fs' (Some "stats.bin"%string) true (Kw (Some DF64) None (Some FaFile)) = Ok o' /\
-                 have_stats ZC o' = Raise IndexError.
-Proof. eexists. eexists. repeat split. Qed.
-
-(* a raw path without force_as="file": the type cannot be inferred *)
-Lemma raw_needs_force_as :
-  exists fs', zsave fs_empty wit_obj "stats.bin" None false true = Ok fs' /\
-              zinit fs' (Some "stats.bin"%string) true kw_none = Raise IOError.
-Proof. eexists. split; reflexivity. Qed.
-
-(* a path that looks like a Kaldi table: what was saved as .npy is not read as .npy *)
-Lemma table_prefix_not_npy :
-  exists fs', zsave fs_empty wit_obj "ark:s.npy" None false true = Ok fs' /\
-              fs' "ark:s.npy"%string = Some (FNpy wit_stats) /\
-              init ZC no_reinterp id_cast (fun _ => true) never fs' (Some "ark:s.npy"%string) true kw_none
-              <> Ok wit_obj.
-Proof. eexists. repeat split. discriminate. Qed.
